@@ -5,6 +5,8 @@
     pub fn parse_number(&mut self, first: u8) -> (res: Result<ParserNumber>)
         requires old(self).pinv(), old(self).read.idx() >= 1,
             first == old(self).read.data()[old(self).read.idx() - 1], first == 0x2d || is_digit(first),
+            // proved for the real wrapper in unit `typed_num`: the reader steps back one byte, the whitespace cache must not start after it
+            old(self).nospace_start == -128 || old(self).nospace_start <= old(self).read.idx() - 1,
         ensures final(self).pinv(), final(self).same_doc(old(self)), final(self).same_cache(old(self)),
             res.is_ok() ==> number_end_l(old(self).read.data(), old(self).read.idx() - 1) == Some(final(self).read.idx() as int)
                 && ev_of(res.unwrap()) == num_event(old(self).read.data(), old(self).read.idx() - 1),
